@@ -51,192 +51,21 @@ PROPS = {
                         "the in-memory database's query functions are modelled by Manager.find_item (validated by the correspondence)"],
     },
     "C16": {
-        "coq_deps": ["ManagerFacts"],
+        "coq_deps": ["ManagerFacts", "CacheProto"],
         "steps": [
             {"sub": "mgr", "quick": [0], "thorough": [1]},
+            {"sub": "proto", "quick": [0], "thorough": [1]},
             {"sub": "c13", "quick": [0], "thorough": [1], "timeout": 3000},
         ],
         "rule": "as C15; regime 0 ties the fill / write-through / flush logic itself (the number of database operations of every call must "
                 "equal the model's), regime 2 (2 ms lifetimes, 300-1800 byte limits, real sleeps, cleaning toggled by transactions) must "
-                "return what the cache-less model returns",
-        "assumptions": ["the theorems treat each manager operation as atomic; the concurrent read-fill / write-through race (K3, fixed by b5f126b) is explored on the real code by the scheduling harness (reader parked between the database's answer and the cache fill)"],
-    },
-    "C01": {
-        "spec_ops": ["specroot"],
-        "coq_deps": ["DirFacts", "Spec", "InsertRefine", "DirRefine"],
-        "steps": [{"sub": "dirs", "quick": [0], "thorough": [1]}],
-        "rule": "random publish histories on the real Directory (both configurations; cached/uncached; sequential/parallel insertion; labels incl. empty, 1-byte, prefix-related and 330-byte; values incl. empty and 1500-byte; inserts, updates, re-submissions, no-op and duplicate-label batches): after every publish the full database (every node record, the epoch record, every value state) and the returned epoch hash are recomputed by the extracted model; the root hash is recomputed from the history alone by the canonical-trie specification (specroot); every lookup, key-history (Complete, MostRecent 1/n/n+3/random) and audit proof is compared structurally with the model's and its verification verdict and result with the model verifier's; ground truth from an independent version table",
-        "partial": "",
-        "assumptions": ["VRF outputs are an environment table produced by the implementation's primitive; theorem premises: they are well-formed canonical 256-bit labels and do not collide (C18)"],
-    },
-    "C02": {
-        "coq_deps": ["DirFacts", "DirRefine", "LookupComplete"],
-        "steps": [{"sub": "dirs", "quick": [0], "thorough": [1]}],
-        "rule": "random publish histories on the real Directory (both configurations; cached/uncached; sequential/parallel insertion; labels incl. empty, 1-byte, prefix-related and 330-byte; values incl. empty and 1500-byte; inserts, updates, re-submissions, no-op and duplicate-label batches): after every publish the full database (every node record, the epoch record, every value state) and the returned epoch hash are recomputed by the extracted model; the root hash is recomputed from the history alone by the canonical-trie specification (specroot); every lookup, key-history (Complete, MostRecent 1/n/n+3/random) and audit proof is compared structurally with the model's and its verification verdict and result with the model verifier's; ground truth from an independent version table",
-        "partial": "theorems: unpublished label refused; END TO END in every reachable state the returned proof is accepted by lookup_verify against the returned epoch hash and yields exactly the latest (epoch, version, value) - premises: VRF outputs are well-formed 256-bit labels, do not collide, and the server's VRF proof verifies to the output (C18); batch_lookup = single lookups and the byte-level tie are decided by correspondence + oracle",
-        "assumptions": ["VRF outputs are an environment table produced by the implementation's primitive"],
-    },
-    "C03": {
-        "coq_deps": ["DirFacts", "DirRefine", "HistComplete", "MarkerBounds", "LookupComplete", "HistEnd"],
-        "steps": [{"sub": "dirs", "quick": [0], "thorough": [1]}],
-        "rule": "random publish histories on the real Directory (both configurations; cached/uncached; sequential/parallel insertion; labels incl. empty, 1-byte, prefix-related and 330-byte; values incl. empty and 1500-byte; inserts, updates, re-submissions, no-op and duplicate-label batches): after every publish the full database (every node record, the epoch record, every value state) and the returned epoch hash are recomputed by the extracted model; the root hash is recomputed from the history alone by the canonical-trie specification (specroot); every lookup, key-history (Complete, MostRecent 1/n/n+3/random) and audit proof is compared structurally with the model's and its verification verdict and result with the model verifier's; ground truth from an independent version table",
-        "partial": None,
-        "assumptions": ["VRF outputs are an environment table produced by the implementation's primitive"],
-    },
-    "C04": {
-        "coq_deps": ["DirFacts", "DirRefine", "InsertRefine", "AuditRebuild", "AuditSound", "AuditComplete", "AuditDir"],
-        "steps": [{"sub": "dirs", "quick": [0], "thorough": [1]}],
-        "rule": "random publish histories on the real Directory (both configurations; cached/uncached; sequential/parallel insertion; labels incl. empty, 1-byte, prefix-related and 330-byte; values incl. empty and 1500-byte; inserts, updates, re-submissions, no-op and duplicate-label batches): after every publish the full database (every node record, the epoch record, every value state) and the returned epoch hash are recomputed by the extracted model; the root hash is recomputed from the history alone by the canonical-trie specification (specroot); every lookup, key-history (Complete, MostRecent 1/n/n+3/random) and audit proof is compared structurally with the model's and its verification verdict and result with the model verifier's; ground truth from an independent version table",
-        "partial": None,
-        "assumptions": ["VRF outputs are well-formed canonical 256-bit labels and do not collide (C18), as for C01", "the model = code tie: every audit proof and verdict of the harness run is recomputed by the extracted model"],
-    },
-    "C09": {
-        "coq_deps": ["VerifyFacts", "HashingBinding", "InsertRefine", "AuditRebuild", "AuditSound"],
-        "steps": [{"sub": "audits", "quick": [0], "thorough": [1]}],
-        "rule": "adversarial single-epoch append-only proofs against the real auditor on real start trees (both configurations): frontier of "
-                "the start tree as unchanged nodes combined with fresh leaves anywhere, leaves strictly below an unchanged node, an inserted "
-                "element carrying an unchanged label, a node together with its child, duplicated elements, an old leaf re-inserted with another "
-                "value; the end hash is chosen freely (root of the auditor's own rebuild); accepted => every claimed element must be a node of "
-                "the rebuilt end tree (ground truth); plus multi-epoch proofs with inconsistent lists and replaced/altered hashes and epochs; "
-                "every rebuild hash and verdict recomputed by the extracted model",
-        "partial": None,
-        "assumptions": ["the two root hashes are those of well-formed trees (troot_ok: Rust-typed labels and digests, trie shape, u64 epochs) - for the code this is C01",
-                        "proof_ok: the proof's labels are well-formed and CANONICAL (no stray bits beyond the length) and its values are 32-byte digests; "
-                        "labels with stray bits are exercised on the implementation by the adversarial harness only",
-                        "collision resistance only as the explicit disjunct (Collision H; experimental configuration: or a zero-digest preimage)"],
-    },
-    "C06": {
-        "coq_deps": ["DirSound", "HashingBinding", "HistEnd", "DirSoundReach", "Witness"],
-        "steps": [{"sub": "advdir", "quick": [0], "thorough": [1]}],
-        "rule": "real directories (both configurations) over multi-epoch histories with a label updated in every epoch (versions crossing powers of two); a server holding key and tree assembles: every older version with every ancestor as anchor of the freshness proof; wrong value (with and without recomputed nonce), epoch +-1, version+1 on the same leaves, version beyond the epoch, a current epoch below the version, swapped existence/marker/freshness parts, bit-flipped and truncated VRF proofs, another label's proof or leaf, the honest proof against another epoch's root; histories with the newest 1-2 entries dropped (markers recomputed consistently, forged absences at every anchor, or markers unchanged), oldest dropped (complete / most-recent-n / n-1), reordered, duplicated, removed middle entry, exchanged or altered epochs, replaced values (with and without nonce), tombstone substitution in both modes, version 1 as tombstone with an earlier epoch (K2), omitted / surplus / swapped marker proofs, missing previous-version proofs, most-recent parameters below/equal/above the number of versions; plus trees built through Azks with the superseded version retired in time, one epoch late, or never; every VRF verification is evaluated by the implementation's primitive (vchk table), every verdict and result recomputed by the extracted model verifier; accepted => result must equal the truth table",
-        "assumptions": ["VrfUnique (a verifying VRF proof's output is the function value) is a premise of the theorem; collision resistance appears as the explicit disjunct Bad",
-                        "the honest tree is described by what it holds at the label's VRF labels (premises tree_fresh / tree_stale), established for the code by the C01 state correspondence"],
-    },
-    "C07": {
-        "coq_deps": ["DirSound", "HashingBinding", "HistEnd", "DirSoundReach", "Witness"],
-        "steps": [{"sub": "advdir", "quick": [0], "thorough": [1]}],
-        "rule": "real directories (both configurations) over multi-epoch histories with a label updated in every epoch (versions crossing powers of two); a server holding key and tree assembles: every older version with every ancestor as anchor of the freshness proof; wrong value (with and without recomputed nonce), epoch +-1, version+1 on the same leaves, version beyond the epoch, a current epoch below the version, swapped existence/marker/freshness parts, bit-flipped and truncated VRF proofs, another label's proof or leaf, the honest proof against another epoch's root; histories with the newest 1-2 entries dropped (markers recomputed consistently, forged absences at every anchor, or markers unchanged), oldest dropped (complete / most-recent-n / n-1), reordered, duplicated, removed middle entry, exchanged or altered epochs, replaced values (with and without nonce), tombstone substitution in both modes, version 1 as tombstone with an earlier epoch (K2), omitted / surplus / swapped marker proofs, missing previous-version proofs, most-recent parameters below/equal/above the number of versions; plus trees built through Azks with the superseded version retired in time, one epoch late, or never; every VRF verification is evaluated by the implementation's primitive (vchk table), every verdict and result recomputed by the extracted model verifier; accepted => result must equal the truth table",
-        "partial": None,
-        "assumptions": ["as C06"],
-    },
-    "C10": {
-        "coq_deps": ["ManagerFacts"],
-        "steps": [{"sub": "c10", "quick": [0], "thorough": [1], "timeout": 3000},
-                  {"sub": "mgr", "quick": [0], "thorough": [1]}],
-        "rule": "fault enumeration on the real code: every storage operation index k of a publish (inserts / updates / mixed / random shapes; cached and uncached manager; sequential and parallel insertion; both configurations) is made to fail; afterwards the SAME instance must report the previous epoch hash, serve verifying lookup/history/audit proofs for the previous state only, leave the database byte-identical (checked after letting detached tasks run), a fresh instance must agree, and the retry must end in the fault-free twin's database; the storage-manager model is tied by the operation-sequence correspondence with rejected writes (mgr step)",
-        "assumptions": ["faults are whole-call failures of the Database trait (the property's fault model); process crashes are C11"],
-    },
-    "C11": {
-        "coq_deps": ["StoreFacts", "DirFacts"],
-        "steps": [{"sub": "c11", "quick": [0], "thorough": [1], "timeout": 3000}],
-        "rule": "recorded commit batches of real publishes (create / split / update nodes): the model predicate commit_shape is evaluated on every record of the batch against the store before the publish (must be true: premise of the theorem), the tree reconstructed from raw records as of E, E+1 and E-1 by the model's version selection is compared with the implementation's (hook H2); crash points on the real code: every prefix of several orders and random subsets of the batch written to a copy of the pre-publish database, a second instance must serve the previous epoch (epoch hash, lookups, histories, audit verify) and, with the epoch record, the new epoch",
-        "assumptions": ["record-level atomicity of the storage (the property's premise); the epoch record is written last (checked on the recorded batch)"],
-    },
-    "C12": {
-        "coq_deps": ["Sched"],
-        "steps": [{"sub": "c12", "quick": [0], "thorough": [1], "timeout": 3000}],
-        "rule": "two and three publish calls on clones of one directory (shared label between batches; cached and uncached manager; both configurations) over gated storage: exhaustive schedules with one pre-emption pair (i, j) for two tasks (sampled in quick tier), random multi-pre-emption schedules for three; returned epochs must be distinct and consecutive, the final database must equal serial application in epoch order, every returned (epoch, hash) must be that epoch's hash and the audit over them must verify; the epochs handed out are also predicted by the protocol model run under the same schedule (c12 lines)",
-        "assumptions": ["each storage operation is atomic; pre-emption inside a storage operation and real multi-threading are not modelled (limit stated in DESIGN.md)"],
-    },
-    "C13": {
-        "coq_deps": ["StoreFacts"],
-        "steps": [{"sub": "c13", "quick": [0], "thorough": [1], "timeout": 3000},
-                  {"sub": "c11", "quick": [0], "thorough": [0], "timeout": 3000}],
-        "rule": "a reader request (lookup of two labels, key history, audit, epoch hash) interleaved with a publish under explicit schedules, on the writer instance, on a separate uncached instance and on a separate cached instance whose view lags storage by 0-3 epochs; every Ok answer must name an (epoch, root hash) pair the directory published and verify against it; the change poller must make later requests use an epoch at least as new as the signalled one; the version-selection model is tied by the store-level lines of the c11 step",
-        "assumptions": ["each storage operation is atomic in the protocol model; pre-emption between a storage operation and its return to the caller is explored on the real code (this is how K3 was reproduced; fixed by b5f126b)"],
-    },
-    "C14": {
-        "coq_deps": ["InsertFacts", "InsertRefine"],
-        "steps": [{"sub": "c14", "quick": [0], "thorough": [1], "timeout": 3000},
-                  {"sub": "dirs", "quick": [0], "thorough": [0], "featureset": "B"},
-                  {"sub": "c14", "quick": [0], "thorough": [0], "featureset": "B", "timeout": 3000}],
-        "rule": "one publish history per configuration run under parallelism {disabled, static 1/2/3/5/32, available-or-fallback} x cache {none, default, 2 ms lifetime, 600-byte limit} x {same object, re-created before every call + read-only wrapper}: epoch hashes, the stored state and every verification outcome / verified result must be identical to the sequential uncached run; the same leaf set inserted permuted, split into sub-batches of one epoch and through the auditor path must give the same root hash; the whole directory correspondence (dirs step) and the matrix are repeated with a second harness binary built WITHOUT the greedy_lookup_preload / preload_history / parallel_vrf features",
-        "assumptions": ["compile-time features are covered by two binaries, not by a theorem"],
-    },
-    "C20": {
-        "coq_deps": ["ManagerFacts", "DirFacts", "DirRefine", "LookupComplete", "HistEnd", "TombHist"],
-        "steps": [{"sub": "c20", "quick": [0], "thorough": [1], "timeout": 3000},
-                  {"sub": "dirs", "quick": [0], "thorough": [1]}],
-        "rule": "histories with a label updated in every epoch; tombstone cut-off at every epoch 0..current on a copy of the storage: epoch hash, audit proof, other labels' lookup and history proofs and (cut-off before the latest update) the label's own lookup must be structurally identical; the label's history must verify with AllowMissingValues to the same versions/epochs with tombstoned values empty, Default must reject exactly when the requested range (Complete, MostRecent 1/2/n) includes a tombstoned entry; publish-after-tombstone must equal tombstone-after-publish (database compared); the model's d_tombstone is tied by the dirs step (state, history proofs, both verification modes, further publish)",
-        "assumptions": [],
-    },
-    "C18": {
-        "coq_deps": ["VrfFacts"],
-        "steps": [{"sub": "c18", "quick": [0], "thorough": [1], "timeout": 3000}],
-        "rule": "for structured and random secret keys (hard-coded, all-zero, all-0xFF, random), labels (empty, 1-byte, prefix-related, 330-byte, random), both freshness values and versions across the u64 range: derivation twice (determinism, 256 bits), proof bytes parse/print, verification under the public key with equality of the verified output and the node label placed in the tree, every single-field alteration of the verification inputs (freshness, version+1, version high bit, label extended / bit-flipped, other public key, each of the 80 proof bytes, wrong proof lengths) must fail or yield the same label; distinct (key,label,freshness,version) give distinct labels; commitments under different keys differ; directories run under several secret keys: lookup proofs verify only under their own public key, altered claimed node labels / swapped VRF proofs / other label / version+1 fail, batch derivation equals single derivation. Model lines: the VRF input hash and the value commitment are recomputed by the Coq model (Gallina BLAKE3) for every case",
-        "partial": None,
-        "assumptions": ["group laws and point codec of the prime-order subgroup of edwards25519 (premises GroupLaws / PointCodec of the theorems)", "VRF uniqueness (premise of C18_no_other_label)", "collision resistance of BLAKE3 and of the ECVRF challenge hash appear as explicit bad events in the statements"],
-    },
-    "C19": {
-        "coq_deps": ["ProtoFacts"],
-        "steps": [{"sub": "c19", "quick": [0], "thorough": [1], "timeout": 3000}],
-        "rule": "random publish histories (both configurations): every lookup, history (Complete, MostRecent) and append-only proof and every audit blob is encoded by the implementation and byte-for-byte by the Coq model; decoded back and compared; verification before/after the wire compared; then bit-flipped, truncated, range-deleted, byte-inserted, doubled, random and empty encodings plus field-level alterations re-encoded by rust-protobuf (each required field removed, labels of 33 bytes / 257 bits, digests of 0/31/33 bytes, directions 2..u32::MAX, 0/1/3 children, missing or extra siblings, u64::MAX numbers) are decoded under catch_unwind by the implementation and by the model: the model answers ok(value)/reject, which must equal the implementation's answer, or OUTSIDE (wire features left to the protobuf library; counted in input_distribution.model_outside) where only absence of a panic is checked; every accepted decode is verified (no panic, same result as the original or rejection); blob names printed/parsed incl. malformed names; numeric edge probes on the verifiers",
-        "assumptions": ["the protobuf library's handling of unknown fields, groups, duplicated singular fields and over-long varints is not modelled (answer OUTSIDE); messages are shorter than 2^64 bytes"],
-        "trusted": ["rust-protobuf 3.7.2 for wire features outside Proto.v's canonical subset"],
-    },
-}
-"""Per-property configuration of bin/check: Coq files, harness steps (sub-command and per-tier
-arguments after the seed), extra trusted-base entries."""
-
-PROPS = {
-    "C17": {
-        "coq_deps": ["NodeLabelFacts", "ElemSet", "ElemSetFacts", "BitsLabel", "InsertRefine"],
-        "steps": [
-            {"sub": "labels", "quick": [0], "thorough": [1]},
-        ],
-        "rule": "one line per implementation call (NodeLabel::{is_prefix_of,get_prefix,get_longest_common_prefix,"
-                "get_prefix_ordering,cmp}; AzksElementSet::{from,partition,get_longest_common_prefix,contains_prefix} via hook H1) "
-                "on exhaustive small labels, byte-boundary patterns and prefix-related 256-bit labels; every answer recomputed by the "
-                "extracted Coq model and by an independent bit-string oracle; distinct = distinct (query, answer) lines",
-        "assumptions": ["labels have 32 value bytes and label_len <= 256 (theorem hypothesis WF); ordering theorem for canonical labels"],
-    },
-    "C08": {
-        "coq_deps": ["MarkerFacts", "DirSound", "HashingBinding", "HistEnd", "DirSoundReach"],
-        "steps": [
-            {"sub": "markers", "quick": [0], "thorough": [1]},
-            {"sub": "advdir", "quick": [0], "thorough": [1]},
-        ],
-        "rule": "(advdir step: on trees built by a dishonest server - a superseded version retired late or never - the real verifiers must not accept a complete history and a lookup naming different latest versions under one root) get_marker_versions on every triple s<=n<=E up to the tier's bound, degenerate (panicking) arguments and "
-                "structured 64-bit triples around powers of two and skip-list elements, each answer recomputed by the extracted "
-                "Coq model; plus the property itself evaluated on the implementation's outputs: every quadruple (E,n,m,s') for "
-                "history/history and every triple (E,n,m) for lookup/history (kf_K1 lines, classified by the model's K1_class)",
-        "assumptions": ["versions and epochs are u64 values; the tree-level bridge (a label cannot be shown both present and absent) is C05"],
-    },
-    "C05": {
-        "coq_deps": ["TreeFacts", "HashingFacts", "TreeComplete", "NonMemComplete", "HistEnd", "DirSound", "DirSoundReach"],
-        "steps": [
-            {"sub": "trees", "quick": [0], "thorough": [1]},
-        ],
-        "rule": "real Azks trees (both configurations; empty tree, the D1 shape, subsets of a small universe dealt into 1-3 epochs, random "
-                "256-bit labels sharing prefixes around byte boundaries): full tree dump + root hash, honest membership/non-membership "
-                "proofs for members and related non-members, and adversarial proofs (every ancestor as anchor, swapped/emptied/shortened "
-                "children, altered sibling values, directions, hashes, removed siblings, relabelled and truncated membership proofs); every "
-                "line recomputed bit for bit by the extracted model with Gallina BLAKE3; ground truth of each accepted proof checked",
-        "assumptions": ["hash values are 32 bytes (Rust types); theorems hold up to an explicit hash collision / zero-digest preimage event"],
-    },
-    "C15": {
-        "coq_deps": ["ManagerFacts"],
-        "steps": [
-            {"sub": "mgr", "quick": [0], "thorough": [1]},
-        ],
-        "rule": "random operation sequences (set, batch_set, get, batch_get, the five user-state flags, user data, bulk versions, "
-                "tombstone, begin/commit/rollback, flush) on the real StorageManager over a database wrapper that rejects chosen calls; "
-                "three regimes (deterministic cache with database-operation counts, no cache, 2 ms lifetimes with memory limit and real "
-                "sleeps); well-formed and (1/7) malformed data; every return value and the final database recomputed by the extracted "
-                "model; ground truth of every read = the same read on a committed twin",
-        "assumptions": ["per user, versions increase with epochs and rewriting a (user, epoch) record keeps its version (hypothesis rewrite_keeps_version)",
-                        "the in-memory database's query functions are modelled by Manager.find_item (validated by the correspondence)"],
-    },
-    "C16": {
-        "coq_deps": ["ManagerFacts"],
-        "steps": [
-            {"sub": "mgr", "quick": [0], "thorough": [1]},
-            {"sub": "c13", "quick": [0], "thorough": [1], "timeout": 3000},
-        ],
-        "rule": "as C15; regime 0 ties the fill / write-through / flush logic itself (the number of database operations of every call must "
-                "equal the model's), regime 2 (2 ms lifetimes, 300-1800 byte limits, real sleeps, cleaning toggled by transactions) must "
-                "return what the cache-less model returns",
-        "assumptions": ["the theorems treat each manager operation as atomic; the concurrent read-fill / write-through race (K3, fixed by b5f126b) is explored on the real code by the scheduling harness (reader parked between the database's answer and the cache fill)"],
+                "return what the cache-less model returns; proto step: reader tasks (get, batch_get, get_user_state) and a writing task "
+                "(set, batch_set, possibly reading first) on one cached manager, each parked before and after every call of the data layer or "
+                "(hook) where the cache is about to store records and released one call at a time by an explicit schedule - all 16 prefixes for "
+                "one reader against one writer in every api variant, all 512 prefixes for two reads against read+two writes, thousands of random "
+                "task sets and schedules - must agree with the extracted protocol model on the data layer's final record, the cache's final "
+                "content and every read's result; plus ungated rounds on a multi-thread runtime (coherence once everything has finished)",
+        "assumptions": ["the sequential theorems treat each manager operation as atomic; the concurrent read-fill / write-through protocol (K3, fixed by 92ed186) is a separate transition-system model (CacheProto.v) per key with serialised writers, tied to the code by the proto step; the directory-level consequences are explored by the scheduling harness (reader parked between the database's answer and the cache fill)"],
     },
     "C01": {
         "spec_ops": ["specroot"],
@@ -310,13 +139,13 @@ PROPS = {
         "assumptions": ["record-level atomicity of the storage (the property's premise); the epoch record is written last (checked on the recorded batch)"],
     },
     "C12": {
-        "coq_deps": ["Sched"],
+        "coq_deps": ["Sched", "SchedState"],
         "steps": [{"sub": "c12", "quick": [0], "thorough": [1], "timeout": 3000}],
         "rule": "two and three publish calls on clones of one directory (shared label between batches; cached and uncached manager; both configurations) over gated storage: exhaustive schedules with one pre-emption pair (i, j) for two tasks (sampled in quick tier), random multi-pre-emption schedules for three; returned epochs must be distinct and consecutive, the final database must equal serial application in epoch order, every returned (epoch, hash) must be that epoch's hash and the audit over them must verify; the epochs handed out are also predicted by the protocol model run under the same schedule (c12 lines)",
         "assumptions": ["each storage operation is atomic; pre-emption inside a storage operation and real multi-threading are not modelled (limit stated in DESIGN.md)"],
     },
     "C13": {
-        "coq_deps": ["StoreFacts"],
+        "coq_deps": ["StoreFacts", "StoreConc"],
         "steps": [{"sub": "c13", "quick": [0], "thorough": [1], "timeout": 3000},
                   {"sub": "c11", "quick": [0], "thorough": [0], "timeout": 3000}],
         "rule": "a reader request (lookup of two labels, key history, audit, epoch hash) interleaved with a publish under explicit schedules, on the writer instance, on a separate uncached instance and on a separate cached instance whose view lags storage by 0-3 epochs; every Ok answer must name an (epoch, root hash) pair the directory published and verify against it; the change poller must make later requests use an epoch at least as new as the signalled one; the version-selection model is tied by the store-level lines of the c11 step",
